@@ -1,4 +1,5 @@
 import Eru.Book.ProofsRemap
+import Eru.Book.ProofsRemapLayers
 /-
 C32 — Unbound workloads are remapped onto free shared cores only.
 Property theorems only; helper lemmas live in Eru/Book/ProofsRemap.lean.
@@ -68,6 +69,89 @@ theorem bound_untouched (n : NodeInfo) (shareBase : Int) (ws : List (String × W
     obtain ⟨⟨id', w⟩, ⟨hin, hb⟩, heq⟩ := h
     simp only [Prod.mk.injEq] at heq
     exact ⟨w, heq.1 ▸ hin, by simpa using hb⟩
+
+/-! ### the layers above `CalculateRemap`: `Manager.Remap` and calcium's remap loop -/
+
+/-- the engine parameters `CalculateRemap` builds for an unbound workload -/
+def expectedParams (n : NodeInfo) (shareBase : Int) (w : WorkloadRes) : EngineParams :=
+  { cpu := w.cpuLimit, cpuMap := shareCPUMap n shareBase, numaNode := w.numaNode, memory := w.memoryLimit, remap := true }
+
+theorem cpumemAnswer_find (n : NodeInfo) (shareBase : Int) (ws : List (String × WorkloadRes)) (hids : (ws.map (·.1)).Nodup)
+    (id : String) (w : WorkloadRes) (hm : (id, w) ∈ ws) :
+    ((cpumemRemapAnswer n shareBase ws).find? (·.1 == id)).map (·.2) =
+      if w.cpuMap.length = 0 then some (.cpumem (expectedParams n shareBase w)) else none := by
+  unfold cpumemRemapAnswer calculateRemap
+  have h0 : ¬ ws.length = 0 := by
+    intro h; rw [List.eq_nil_of_length_eq_zero h] at hm; cases hm
+  simp only [h0, if_false, List.map_map]
+  have hfun1 : (fun (x : String × WorkloadRes) => match x with | (_, w) => decide (w.cpuMap.length = 0)) =
+      fun x => decide (x.2.cpuMap.length = 0) := by funext ⟨a, b⟩; rfl
+  have := find_filter_map ws (fun x => decide (x.2.cpuMap.length = 0))
+    (fun x => (x.1, PluginParams.cpumem (expectedParams n shareBase x.2))) (fun _ => rfl) hids id w hm
+  have hcomp : ((fun (ie : String × EngineParams) => (ie.1, PluginParams.cpumem ie.2)) ∘
+      fun (x : String × WorkloadRes) => match x with
+        | (id, w) => (id, ({ cpu := w.cpuLimit, cpuMap := shareCPUMap n shareBase, numaNode := w.numaNode,
+                             memory := w.memoryLimit, remap := true } : EngineParams))) =
+      fun x => (x.1, PluginParams.cpumem (expectedParams n shareBase x.2)) := by funext ⟨a, b⟩; rfl
+  rw [hfun1, hcomp, this]
+  by_cases hb : w.cpuMap.length = 0 <;> simp [hb]
+
+/-- `Manager.Remap` over cpumem and any further plugins (answering arbitrarily, under their own
+    names): in the manager's answer the cpumem component of every unbound workload is exactly the
+    engine parameters of `remap_spec` (free shared cores, own limits) and bound workloads have
+    no cpumem entry — whatever the other plugins answer, also for bound workloads. -/
+theorem manager_remap_cpumem_component (n : NodeInfo) (hw : WFNode n) (hv : Valid n) (shareBase : Int)
+    (ws : List (String × WorkloadRes)) (hids : (ws.map (·.1)).Nodup)
+    (extras : List (String × RemapAnswer)) (hx : ∀ pa ∈ extras, pa.1 ≠ "cpumem")
+    (id : String) (w : WorkloadRes) (hm : (id, w) ∈ ws) :
+    cpumemComponent (managerRemap (("cpumem", cpumemRemapAnswer n shareBase ws) :: extras)) id =
+      (if w.cpuMap.length = 0 then some (.cpumem (expectedParams n shareBase w)) else none) ∧
+    remapEntryOkB n shareBase w (expectedParams n shareBase w) = true := by
+  refine ⟨?_, remap_entry_ok n hw hv shareBase w⟩
+  unfold cpumemComponent
+  rw [component_first "cpumem" _ extras hx id]
+  exact cpumemAnswer_find n shareBase ws hids id w hm
+
+/-- calcium's remap loop attempts the engine update of exactly the workloads in the manager's
+    answer, in any case: which updates fail has no influence on which are attempted (engine
+    errors are logged, the loop goes on). -/
+theorem remap_attempts_all (n : NodeInfo) (shareBase : Int) (ws : List (String × WorkloadRes))
+    (extras : List (String × RemapAnswer)) (engine : String → List (String × PluginParams) → Bool) :
+    (nodeRemap n shareBase ws extras engine).map (·.1) =
+      (managerRemap (("cpumem", cpumemRemapAnswer n shareBase ws) :: extras)).map (·.1) :=
+  remapLoop_ids engine _
+
+/-- in particular every unbound workload of the node gets its engine update attempted, whatever
+    happens to the other updates -/
+theorem remap_attempts_every_unbound (n : NodeInfo) (shareBase : Int) (ws : List (String × WorkloadRes))
+    (hids : (ws.map (·.1)).Nodup) (extras : List (String × RemapAnswer))
+    (engine : String → List (String × PluginParams) → Bool) (id : String) (w : WorkloadRes)
+    (hm : (id, w) ∈ ws) (hu : w.cpuMap.length = 0) :
+    id ∈ (nodeRemap n shareBase ws extras engine).map (·.1) := by
+  rw [remap_attempts_all]
+  unfold managerRemap
+  simp only [List.map_map]
+  have hfind := cpumemAnswer_find n shareBase ws hids id w hm
+  simp only [hu, if_true] at hfind
+  cases hf : (cpumemRemapAnswer n shareBase ws).find? (·.1 == id) with
+  | none => rw [hf] at hfind; cases hfind
+  | some ip =>
+    have h1 : ip ∈ cpumemRemapAnswer n shareBase ws := List.mem_of_find?_eq_some hf
+    have h2 : ip.1 = id := by simpa using List.find?_some hf
+    rw [List.mem_map]
+    refine ⟨id, ?_, rfl⟩
+    rw [List.mem_eraseDups]
+    simp only [List.flatMap_cons, List.mem_append, List.mem_map]
+    exact Or.inl ⟨ip, h1, h2⟩
+
+/-- The loop of the seeded mutants (give up at the first engine error) does *not* have this
+    property: with three workloads and an engine failing for the first one, only one update is
+    attempted. -/
+theorem stop_at_error_counterexample :
+    let merged : List (String × Nat) := [("a", 0), ("b", 0), ("c", 0)]
+    let engine : String → Nat → Bool := fun id _ => id != "a"
+    (remapLoopStopAtError engine merged).map (·.1) = ["a"] ∧ (remapLoop engine merged).map (·.1) = ["a", "b", "c"] := by
+  decide
 
 /-- the hypotheses are satisfiable: a 2-core node with core 0 fully used by a bound workload -/
 example : ∃ n ws, WFNode n ∧ Valid n ∧ (ws.map (·.1)).Nodup ∧
